@@ -373,8 +373,9 @@ func quoted(prefix, fn string, kid tok) tok {
 	}}
 }
 
-// quotedSym: slip reads the token after a quote-like prefix as a symbol
-// whatever it looks like; for real symbols that is also what CL does.
+// sym: a symbol-looking token directly after a quote-like prefix. In a
+// *read-base* where its letters are digits Common Lisp reads (quote <number>);
+// that case is left undecided here (the decided case is the token '12).
 func sym(text string) tok {
 	return tok{class: "symbol", text: text, ann: rep('t', len(text)), den: func(c cfg) *cv {
 		d := atomDen(text, c)
@@ -391,7 +392,8 @@ var tokens []tok
 var coreTokens []int // indexes of the 12-token core used for triples
 
 func init() {
-	a, b, cc := sym("x"), sym("y"), sym("z")
+	a, b := atom("x"), atom("y")
+	qa := sym("x") // directly after a quote-like prefix
 	add := func(t tok, core bool) {
 		if core {
 			coreTokens = append(coreTokens, len(tokens))
@@ -448,16 +450,16 @@ func init() {
 	add(arr2(list(atom("1"), atom("2")), list(atom("3"), atom("4"))), false)
 	add(bits("#*101"), true)
 	// quote-like
-	add(quoted("'", "quote", a), true)
+	add(quoted("'", "quote", qa), true)
 	add(quoted("'", "quote", list(a, b)), false)
 	add(quoted("#'", "function", sym("car")), false)
-	add(quoted("`", "backquote", list(a, quoted(",", "comma", b), quoted(",@", "commaat", cc))), false)
+	add(quoted("`", "backquote", list(a, quoted(",", "comma", sym("y")), quoted(",@", "commaat", sym("z")))), false)
 	add(quoted("'", "quote", pipe("|Foo|", "Foo")), false)
 	add(quoted("'", "quote", str(`"s"`, "s")), false)
 	add(quoted("'", "quote", atom("12")), false)
 	add(quoted("'", "quote", chr(`#\a`, 'a')), false)
 	add(quoted("'", "quote", vec(atom("1"))), false)
-	add(quoted("'", "quote", quoted("'", "quote", a)), false)
+	add(quoted("'", "quote", quoted("'", "quote", qa)), false)
 }
 
 // ------------------------------------------------------------ texts
